@@ -6,8 +6,7 @@ it carries a single entry; its header counts equal the entries actually present;
 record appears in exactly one datagram of the sequence, in order; for queries the TC flag is set on
 every datagram except the last, responses never get it.
 
-Same model and same proof stack as C01 (`Zc/Proofs/Wire/*`).  `…_partial`: NSEC records are outside
-`WFMsg` (see C01). -/
+Same model and same proof stack as C01 (`Zc/Proofs/Wire/*`). -/
 namespace Zc
 open Zc.Wire Zc.Wire.Encode
 
@@ -85,7 +84,7 @@ theorem strict_decode_counts (p : Bytes) (w : WMsg) (h : Strict.decode p = some 
   · simp at h
 
 /-- **Sizes.**  No datagram exceeds 8966 bytes; one that exceeds 1460 bytes carries a single entry. -/
-theorem C14_sizes_partial (m : Msg) (hwf : WFMsg m) (hfit : FitAll m) (pks : List Bytes) (h : packets m = .ok pks) :
+theorem C14_sizes (m : Msg) (hwf : WFMsg m) (hfit : FitAll m) (pks : List Bytes) (h : packets m = .ok pks) :
     ∀ p ∈ pks, p.length ≤ 8966 ∧ ∃ w, Strict.decode p = some w ∧ (1460 < p.length → entryCount w = 1) := by
   unfold packets at h
   obtain ⟨msgs, e, _, _, _, _, _, hsz, hone, _, _⟩ := packetsLoop_spec m hwf hfit _ ⟨0, 0, 0, 0⟩ pks
@@ -99,17 +98,17 @@ theorem C14_sizes_partial (m : Msg) (hwf : WFMsg m) (hfit : FitAll m) (pks : Lis
 
 /-- **Counts.**  Every datagram is well formed: its four header counts equal the entries present,
 nothing trails. -/
-theorem C14_counts_partial (m : Msg) (hwf : WFMsg m) (hfit : FitAll m) (pks : List Bytes) (h : packets m = .ok pks) :
+theorem C14_counts (m : Msg) (hwf : WFMsg m) (hfit : FitAll m) (pks : List Bytes) (h : packets m = .ok pks) :
     ∀ p ∈ pks, ∃ w, Strict.decode p = some w ∧
       u16At p 4 = some w.questions.length ∧ u16At p 6 = some w.answers.length ∧
       u16At p 8 = some w.authorities.length ∧ u16At p 10 = some w.additionals.length := by
   intro p hp
-  obtain ⟨_, w, hw, _⟩ := C14_sizes_partial m hwf hfit pks h p hp
+  obtain ⟨_, w, hw, _⟩ := C14_sizes m hwf hfit pks h p hp
   exact ⟨w, hw, strict_decode_counts p w hw⟩
 
 /-- **Partition.**  Each question and record appears in exactly one datagram of the sequence: the
 concatenation over the datagrams of each section is that section of the message, in order. -/
-theorem C14_partition_partial (m : Msg) (hwf : WFMsg m) (hfit : FitAll m) (pks : List Bytes) (h : packets m = .ok pks) :
+theorem C14_partition (m : Msg) (hwf : WFMsg m) (hfit : FitAll m) (pks : List Bytes) (h : packets m = .ok pks) :
     ∃ msgs : List WMsg, pks.map Strict.decode = msgs.map some ∧
       msgs.flatMap (·.questions) = m.questions.map (EQuestion.onWire m.multicast) ∧
       msgs.flatMap (·.answers) = m.answers.map (fun x => x.1.onWire m.multicast x.2) ∧
@@ -152,7 +151,7 @@ theorem flagsOK_query (m : Msg) (hq : m.flags &&& 32768 = 0) : ∀ msgs, FlagsOK
       obtain ⟨i1, i2⟩ := ih h.2
       constructor
       · intro w hw
-        simp only [List.dropLast_cons₂, List.mem_cons] at hw
+        simp only [List.dropLast_cons_cons, List.mem_cons] at hw
         rcases hw with rfl | hw
         · rw [h.1, ht]
         · exact i1 w (by simpa using hw)
@@ -161,7 +160,7 @@ theorem flagsOK_query (m : Msg) (hq : m.flags &&& 32768 = 0) : ∀ msgs, FlagsOK
 
 /-- **TC flag.**  For a query the TC flag is or-ed into the flags of every datagram except the last,
 which carries the flags as given; a response carries the flags as given on every datagram. -/
-theorem C14_tc_partial (m : Msg) (hwf : WFMsg m) (hfit : FitAll m) (pks : List Bytes) (h : packets m = .ok pks) :
+theorem C14_tc (m : Msg) (hwf : WFMsg m) (hfit : FitAll m) (pks : List Bytes) (h : packets m = .ok pks) :
     ∃ msgs : List WMsg, pks.map Strict.decode = msgs.map some ∧ msgs ≠ [] ∧
       (m.flags &&& 32768 ≠ 0 → ∀ w ∈ msgs, w.flags = m.flags) ∧
       (m.flags &&& 32768 = 0 → (∀ w ∈ msgs.dropLast, w.flags = m.flags ||| 512) ∧ (∀ w, msgs.getLast? = some w → w.flags = m.flags)) := by
